@@ -152,6 +152,7 @@ class H:
         self.plan = list(plan) if plan else []
         self.rsa_objs = {}
         self.drafts = False
+        self.live = []          # [(the parameters dict handed to the library, copy of what it was)]
 
     # ---- identity of key material
     def mid(self, key):
@@ -166,7 +167,10 @@ class H:
         t = my_thumb(d)
         self.tid[t] = len(self.pool)
         THUMB_NAMES[t] = "th%d" % len(self.pool)
-        self.pool.append({"jwk": d, "kty": d["kty"], "sub": sub, "thumb": t})
+        e = {"jwk": d, "kty": d["kty"], "sub": sub, "thumb": t}
+        if d["kty"] != "oct":
+            e["pem"] = key.as_pem(private=True).decode("ascii")
+        self.pool.append(e)
 
     def make_pool(self):
         from joserfc.jwk import OctKey, ECKey, OKPKey, RSAKey
@@ -211,6 +215,20 @@ class H:
         return JWKRegistry.import_key(reorder(d, order))
 
     def build_keys(self, spec):
+        if spec.get("shared") is not None:
+            # keys imported individually from PEM / raw octets with ONE shared `parameters` dict (as generate_key_set
+            # and application code do): the JWK dict of such a key is built lazily.  Do not touch the keys here.
+            from joserfc.jwk import JWKRegistry, OctKey
+            shared = copy.deepcopy(spec["shared"])
+            self.live.append((shared, copy.deepcopy(spec["shared"])))
+            out = []
+            for sp in spec["keys"]:
+                p = self.pool[sp[0]]
+                if p["kty"] == "oct":
+                    out.append(OctKey.import_key(b64u_dec(p["jwk"]["k"]), shared))
+                else:
+                    out.append(JWKRegistry.import_key(p["pem"].encode("ascii"), p["kty"], shared))
+            return out
         orders = spec.get("orders") or [None] * len(spec["keys"])
         pubs = spec.get("pub") or [False] * len(spec["keys"])
         return [self.build_key(tuple(s), o, pb) for s, o, pb in zip(spec["keys"], orders, pubs)]
@@ -334,7 +352,7 @@ def build_source(h, spec):
     """-> (argument for the key parameter, description for the Coq term)"""
     from joserfc.jwk import KeySet
     keys = h.build_keys(spec)
-    raw_before = [h.c_key(k) for k in keys]
+    raw_before = None
     ks = KeySet(keys) if spec["src"] != "emptyset" else KeySet([])
     src = spec["src"]
     if src == "set":
@@ -825,15 +843,16 @@ def gen_set(h, need_types, n=None, subs=None, dup_ok=True, must=None, exclude=()
         chosen.append(i)
     rng.shuffle(chosen)
     specs, seen = [], set()
+    no_kid = getattr(h, "no_explicit_kid", False)
     for i in chosen:
-        kid = gen_kid(rng, h.pool[i]["thumb"])
+        kid = None if no_kid else gen_kid(rng, h.pool[i]["thumb"])
         eff = kid if kid is not None else h.pool[i]["thumb"]
         if eff in seen and not (dup_ok and rng.random() < 0.5):
             kid = "%s~%d" % (eff[:6], i)
             eff = kid
         seen.add(eff)
         specs.append([i, kid])
-    if dup_ok and len(specs) >= 2 and rng.random() < 0.06:
+    if dup_ok and not no_kid and len(specs) >= 2 and rng.random() < 0.06:
         a, b = rng.sample(range(len(specs)), 2)
         kid = specs[a][1] if specs[a][1] is not None else h.pool[specs[a][0]]["thumb"]
         specs[b][1] = kid
@@ -1186,12 +1205,20 @@ def main_loop(ctx, h, add, report, dist, onepu=False):
     n_scen = ctx.scale(36, 450) if onepu else ctx.scale(200, 3000)
     errors = 0
     for scen in range(n_scen):
-        if onepu:
-            spec = gen_jwe_produce(h, onepu=True)
-            if spec is None:
-                continue
-        else:
-            spec = gen_jws_produce(h) if rng.random() < 0.5 else gen_jwe_produce(h)
+        # one scenario in five: the keys of the set are created individually with ONE shared `parameters` dict
+        shared_mode = rng.random() < 0.2
+        h.no_explicit_kid = shared_mode
+        try:
+            if onepu:
+                spec = gen_jwe_produce(h, onepu=True)
+                if spec is None:
+                    continue
+            else:
+                spec = gen_jws_produce(h) if rng.random() < 0.5 else gen_jwe_produce(h)
+        finally:
+            h.no_explicit_kid = False
+        if rng.random() < 0.3:
+            generate_key_set_check(h, report, rng, spec)
         spec["orders"] = gen_orders(rng, len(spec["keys"]))
         # the role each operation really uses: JWE encryption with the recipients' PUBLIC keys (all or some of the
         # set public-only), signing with the private set (now and then a public-only member: the algorithm refuses it)
@@ -1201,10 +1228,20 @@ def main_loop(ctx, h, add, report, dist, onepu=False):
         else:
             p_pub = 0.4 if r < 0.12 else 0.0
         spec["pub"] = [h.pool[sp[0]]["kty"] != "oct" and rng.random() < p_pub for sp in spec["keys"]]
+        if shared_mode:
+            use = "sig" if spec["fam"] == "jws" else "enc"
+            spec["shared"] = rng.choice([{"use": use}, {"use": use}, {}, {"use": use, "key_ops": None}][:3])
+            spec["pub"] = [False] * len(spec["keys"])
         if spec.get("sender"):
             spec["sender"]["orders"] = gen_orders(rng, len(spec["sender"]["keys"]))
         try:
+            h.live = []
             scenario(ctx, h, add, report, dist, spec)
+            for live, orig in h.live:
+                if live != orig:
+                    report({"kind": "caller-parameters-changed"},
+                           "the parameters dict %r shared by the keys of the set was changed by the library to %r" % (orig, live), spec)
+                    break
         except Exception:       # noqa: an unexpected behaviour of the library must not end the run
             import traceback
             tb = traceback.format_exc()
@@ -1215,6 +1252,37 @@ def main_loop(ctx, h, add, report, dist, onepu=False):
             h.logging = True
             if errors >= 8:
                 break
+
+
+def generate_key_set_check(h, report, rng, spec, fixed=None):
+    """KeySet.generate_key_set with a parameters dict: kids pairwise distinct, each the key's own RFC 7638
+    thumbprint, also in the exported JWKS and after import; the caller's dict is unchanged"""
+    from joserfc.jwk import KeySet
+    if fixed:
+        kty, arg, params, n = fixed["kty"], fixed["arg"], copy.deepcopy(fixed["params"]), fixed["count"]
+    else:
+        kty, arg = rng.choice([("EC", "P-256"), ("EC", "P-384"), ("OKP", "Ed25519"), ("OKP", "X25519"), ("oct", 128), ("oct", 256)])
+        params = copy.deepcopy(rng.choice([{"use": "sig"}, {"use": "enc"}, {}, None]))
+        n = rng.choice([2, 3, 4])
+    orig = copy.deepcopy(params)
+    gspec = dict(spec, gks={"kty": kty, "arg": arg, "params": orig, "count": n})
+    r = call(KeySet.generate_key_set, kty, arg, params, True, n)
+    if r[0] != "ok":
+        report({"kind": "generate-key-set-raises"}, "KeySet.generate_key_set(%r, %r, %r, count=%d) raised %r" % (kty, arg, orig, n, r[1]), gspec)
+        return
+    keys = r[1].keys
+    kids = [k.kid for k in keys]
+    thumbs = [my_thumb(k.dict_value) for k in keys]
+    exported = [d.get("kid") for d in r[1].as_dict(private=False if kty != "oct" else None)["keys"]]
+    imp = call(KeySet.import_key_set, r[1].as_dict())
+    ikids = [k.kid for k in imp[1].keys] if imp[0] == "ok" else None
+    if kids != thumbs or len(set(kids)) != n or exported != thumbs or ikids != thumbs:
+        report({"kind": "generate-key-set-kids"},
+               "KeySet.generate_key_set(%r, %r, %r, count=%d): kids %r, exported %r, re-imported %r; the keys' own RFC 7638 "
+               "thumbprints are %r" % (kty, arg, orig, n, kids, exported, ikids, thumbs), gspec)
+    if params != orig:
+        report({"kind": "caller-parameters-changed"},
+               "KeySet.generate_key_set changed the caller's parameters dict %r to %r" % (orig, params), gspec)
 
 
 def check_auto_kids(h, keys, before_kids, spec, report, where):
@@ -1239,9 +1307,20 @@ def scenario(ctx, h, add, report, dist, spec):
         fam, ser = spec["fam"], spec["ser"]
         # KeySet construction on fresh key objects
         fresh = h.build_keys(spec)
-        before = h.c_keys(fresh)
-        before_kids = [k.dict_value.get("kid") for k in fresh]
+        shared_mode = spec.get("shared") is not None
+        if not shared_mode:
+            before = h.c_keys(fresh)
+            before_kids = [k.dict_value.get("kid") for k in fresh]
         kset = KeySet(fresh)
+        if shared_mode:
+            # the keys had no kid (nothing but the shared parameters, which carry none): build the terms afterwards
+            before_kids = [None] * len(fresh)
+            before = c_list(["(mkKey None \"%s\" %s %s)" % (k.key_type, c_N(h.mid(k)), c_str(k.thumbprint())) for k in fresh])
+            kids_now = [k.kid for k in fresh]
+            if len(set(kids_now)) != len(kids_now):
+                report({"kind": "shared-parameters-duplicate-kids"},
+                       "%d different keys created with one shared parameters dict %r got the kids %r" % (
+                           len(fresh), spec["shared"], kids_now), spec)
         after = [k.dict_value.get("kid") for k in kset.keys]
         add("CInit %s %s" % (before, c_list([c_opt(x, c_str) for x in after])), ("init", spec["keys"], spec, pool_ids(spec)))
         check_auto_kids(h, fresh, before_kids, spec, report, "KeySet(...)")
@@ -1780,6 +1859,9 @@ def replay(path):
             from joserfc.drafts.jwe_ecdh_1pu import register_ecdh_1pu
             register_ecdh_1pu()
             h.drafts = True
+        if "gks" in spec:
+            generate_key_set_check(h, report, None, spec, fixed=spec["gks"])
+            return 1 if found else 0
         if "token" in spec:
             crec = consume(h, spec)
             print("consume outcome:", crec["out"])
@@ -1796,10 +1878,16 @@ def replay(path):
         print("set kids:", [(k.kid, k.key_type) for k in keys])
         if r.get("kind") in ("keyset-kid-invariant", "auto-kid-not-thumbprint"):
             fresh = h.build_keys(spec)
-            before = [k.dict_value.get("kid") for k in fresh]
+            before = [None] * len(fresh) if spec.get("shared") is not None else [k.dict_value.get("kid") for k in fresh]
             KeySet(fresh)
             check_auto_kids(h, fresh, before, spec, report, "KeySet(...)")
             return 1 if found else 0
+        if r.get("kind") in ("shared-parameters-duplicate-kids", "caller-parameters-changed") and "gks" not in spec:
+            fresh = h.build_keys(spec)
+            KeySet(fresh)
+            kids_now = [k.kid for k in fresh]
+            print("kids:", kids_now, "parameters:", h.live)
+            return 1 if (len(set(kids_now)) != len(kids_now) or any(a != b for a, b in h.live)) else 0
         if "kid" in r or "alg" in r:
             bad = False
             if "kid" in r:
